@@ -133,6 +133,8 @@ def long_job(types, emb, max_n=("10000", "1000000")):
 
 TR_LEN = {"module": "Trace_Len", "cfg": "Trace_Len.cfg", "family": "len", "args": {"n": ("500", "5000")}, "timeout": 1800}
 
+TR_MM = {"module": "Trace_MinMax", "cfg": "Trace_MinMax.cfg", "family": "minmax", "args": {"n": ("500", "5000")}, "timeout": 1800}
+
 GEN_INGEST = {"module": "Gen_Ingest", "cfg": "Gen_Ingest.cfg", "overrides": {"MaxLen": ("4", "5"), "MaxSteps": ("4", "5")}, "family": "ingest"}
 
 PROPS = {
@@ -289,11 +291,12 @@ PROPS = {
         "assumptions": ["as C01"],
     },
     "C14": {
-        "level_text": 'MinMax.tla over tokens incl. +-inf, +-0, NaN: ExtremeIsDef (function of the non-NaN multiset), FromValueIsAdd; every sequence/chunking/merge tree/history replayed, all ingestion paths',
-        "technique": 'TLC model checking of MinMax.tla + exhaustive replay',
+        "level_text": 'MinMax.tla over tokens incl. +-inf, +-0, NaN: ExtremeIsDef (function of the non-NaN multiset), FromValueIsAdd; every sequence/chunking/merge tree/history replayed, all ingestion paths; long random histories (integers to 10^6, +-inf, -0.0, NaN; add/from_value/collect/extend/merge/clone/serde over six objects) recorded from the real code and validated by TLC against Trace_MinMax.tla, which asserts the definition after every event',
+        "technique": 'TLC model checking of MinMax.tla + exhaustive replay + TLC trace validation (Trace_MinMax.tla)',
         "title": "Min and Max return the exact extreme of everything seen, in any order",
         "mc": [MC_MM],
         "replay": [gen_mm("seq", maxlen=("5", "6")), gen_mm("tree", maxlen=("3", "4")), gen_mm("hist", depth=("3", "4"))],
+        "trace": [TR_MM],
         "rule": "every sequence over the seven tokens {-inf,-1,-0.0,0.0,1,+inf,NaN} up to the length bound (all permutations are "
                 "among them), every chunking into <= 3 chunks and merge order/direction, arbitrary histories with from_value; "
                 "collect/extend ingestion on every add-only slot; finite tokens at scales 1, 1e-30, 1e30",
